@@ -26,7 +26,7 @@ namespace cc = cds::container;
 
 namespace {
 
-struct QCfg { int nthreads; };
+struct QCfg { int nthreads; int flip; };   // flip: which enqueue overload odd/even values go through
 
 template <class Q> inline void thread_exit_hook( Q& ) {}
 #if FAMILY == 4
@@ -57,15 +57,20 @@ struct QueueAdapter
     void apply( int t, History& h, POp const& op )
     {
         switch ( op.op ) {
-        case ENQ: { int i = h.call( t, ENQ, op.a ); bool ok = q->enqueue( op.a ); h.ret( i, ok ); break; }
-        case DEQ: { int i = h.call( t, DEQ ); long v = -1; bool ok = q->dequeue( v ); h.ret( i, ok, ok ? v : 0 ); break; }
+        case ENQ: {
+            // both overloads are exercised: odd values through enqueue( T const& ), even ones through enqueue( T&& )
+            int i = h.call( t, ENQ, op.a ); Payload pl( op.a );
+            bool ok = (( op.a + cfg.flip ) & 1 ) ? q->enqueue( pl ) : q->enqueue( std::move( pl ));
+            h.ret( i, ok ); break;
+        }
+        case DEQ: { int i = h.call( t, DEQ ); Payload v; bool ok = q->dequeue( v ); h.ret( i, ok, ok ? v.read() : 0 ); break; }
         default: break;
         }
     }
     void drain( History& h )
     {
         for ( int n = 0; n < 64; ++n ) {
-            int i = h.call( -1, DEQ ); long v = -1; bool ok = q->dequeue( v ); h.ret( i, ok, ok ? v : 0 );
+            int i = h.call( -1, DEQ ); Payload v; bool ok = q->dequeue( v ); h.ret( i, ok, ok ? v.read() : 0 );
             if ( !ok ) break;
         }
         int i = h.call( -1, EMPTY ); h.ret( i, q->empty());
@@ -80,9 +85,9 @@ std::vector<Scenario> g_scen;
 
 // step: every step-th grammar program is in the quick tier, the others are thorough-only; bq/bt: preemption bounds
 template <class Q, class Smr, bool HasStat = false>
-void add_family( std::string const& tname, int step, int bq = 2, int bt = 3, int bq3 = 2, int bt3 = 2 )
+void add_family( std::string const& tname, int step, int bq = 2, int bt = 3, int bq3 = 2, int bt3 = 2, int flip = 0 )
 {
-    std::string base = tname + "/" + Smr::name();
+    std::string base = tname + "/" + Smr::name() + ( flip ? "/flip" : "" );
     // grammar: every 2-thread program with 1..2 operations per thread over {enq, deq} on prefixes [], [x], [x,y]
     std::vector<POp> alpha = { { ENQ, 0, 0 }, { DEQ, 0, 0 } };
     std::vector<TProg> seqs = sequences( alpha, 2 );
@@ -92,20 +97,20 @@ void add_family( std::string const& tname, int step, int bq = 2, int bt = 3, int
     for ( auto& p : progs ) { long v = 1; for ( auto& t : p.threads ) for ( auto& o : t ) if ( o.op == ENQ ) o.a = v++; }
     int n = 0;
     for ( auto const& p : progs )
-        g_scen.push_back( make_scenario<QueueAdapter<Q, Smr, HasStat>>( base, p, QCfg{ 2 }, ( n++ % step ) == 0 ? 0 : 1, bq, bt ));
+        g_scen.push_back( make_scenario<QueueAdapter<Q, Smr, HasStat>>( base, p, QCfg{ 2, flip }, ( n++ % step ) == 0 ? 0 : 1, bq, bt ));
     // curated 3-thread programs
     std::vector<Program> cur;
     { Program p; p.name = "2enq-1deq"; p.threads = { { { ENQ, 1, 0 } }, { { ENQ, 2, 0 } }, { { DEQ, 0, 0 }, { DEQ, 0, 0 } } }; cur.push_back( p ); }
     { Program p; p.name = "enq-deq-deq"; p.prefix = { { ENQ, 91, 0 } }; p.threads = { { { ENQ, 1, 0 } }, { { DEQ, 0, 0 } }, { { DEQ, 0, 0 } } }; cur.push_back( p ); }
     { Program p; p.name = "deq3-on-2"; p.prefix = { { ENQ, 91, 0 }, { ENQ, 92, 0 } }; p.threads = { { { DEQ, 0, 0 } }, { { DEQ, 0, 0 } }, { { DEQ, 0, 0 }, { ENQ, 1, 0 } } }; cur.push_back( p ); }
     for ( auto const& p : cur )
-        g_scen.push_back( make_scenario<QueueAdapter<Q, Smr, HasStat>>( base, p, QCfg{ 3 }, step == 1 ? 0 : 1, bq3, bt3 ));
+        g_scen.push_back( make_scenario<QueueAdapter<Q, Smr, HasStat>>( base, p, QCfg{ 3, flip }, step == 1 ? 0 : 1, bq3, bt3 ));
     // deeper 2-thread programs (3 operations each), thorough tier
     {
         Program p; p.name = "deep-eed-dde"; p.threads = { { { ENQ, 1, 0 }, { ENQ, 2, 0 }, { DEQ, 0, 0 } }, { { DEQ, 0, 0 }, { DEQ, 0, 0 }, { ENQ, 3, 0 } } };
-        g_scen.push_back( make_scenario<QueueAdapter<Q, Smr, HasStat>>( base, p, QCfg{ 2 }, 1, bq, bt ));
+        g_scen.push_back( make_scenario<QueueAdapter<Q, Smr, HasStat>>( base, p, QCfg{ 2, flip }, 1, bq, bt ));
         Program p2; p2.name = "deep-ede-ded"; p2.prefix = { { ENQ, 91, 0 } }; p2.threads = { { { ENQ, 1, 0 }, { DEQ, 0, 0 }, { ENQ, 2, 0 } }, { { DEQ, 0, 0 }, { ENQ, 3, 0 }, { DEQ, 0, 0 } } };
-        g_scen.push_back( make_scenario<QueueAdapter<Q, Smr, HasStat>>( base, p2, QCfg{ 2 }, 1, bq, bt ));
+        g_scen.push_back( make_scenario<QueueAdapter<Q, Smr, HasStat>>( base, p2, QCfg{ 2, flip }, 1, bq, bt ));
     }
 }
 
@@ -124,50 +129,53 @@ int main( int argc, char** argv )
 
 #if FAMILY == 1
     {
-        typedef cc::MSQueue<cds::gc::HP, long> ms_hp;
-        typedef cc::MSQueue<cds::gc::DHP, long> ms_dhp;
+        typedef cc::MSQueue<cds::gc::HP, Payload> ms_hp;
+        typedef cc::MSQueue<cds::gc::DHP, Payload> ms_dhp;
         struct tr_cnt_sc: public cc::msqueue::traits { typedef cds::atomicity::item_counter item_counter; typedef cds::opt::v::sequential_consistent memory_model; };
-        typedef cc::MSQueue<cds::gc::HP, long, tr_cnt_sc> ms_hp_cnt_sc;
-        typedef cc::MoirQueue<cds::gc::HP, long> moir_hp;
-        typedef cc::MoirQueue<cds::gc::DHP, long> moir_dhp;
+        typedef cc::MSQueue<cds::gc::HP, Payload, tr_cnt_sc> ms_hp_cnt_sc;
+        typedef cc::MoirQueue<cds::gc::HP, Payload> moir_hp;
+        typedef cc::MoirQueue<cds::gc::DHP, Payload> moir_dhp;
         add_family<ms_hp, HpHolder<ms_hp::c_nHazardPtrCount + 1>>( "MSQueue", 1 );
         add_family<ms_dhp, DhpHolder>( "MSQueue", 3 );
         add_family<ms_hp_cnt_sc, HpHolder<ms_hp::c_nHazardPtrCount + 1>>( "MSQueue-counter-seqcst", 3 );
         add_family<moir_hp, HpHolder<moir_hp::c_nHazardPtrCount + 1>>( "MoirQueue", 1 );
         add_family<moir_dhp, DhpHolder>( "MoirQueue", 3 );
+        add_family<ms_hp, HpHolder<ms_hp::c_nHazardPtrCount + 1>>( "MSQueue", 3, 2, 3, 2, 2, 1 );
     }
 #elif FAMILY == 2
     {
-        typedef cc::BasketQueue<cds::gc::HP, long> bq_hp;
-        typedef cc::BasketQueue<cds::gc::DHP, long> bq_dhp;
+        typedef cc::BasketQueue<cds::gc::HP, Payload> bq_hp;
+        typedef cc::BasketQueue<cds::gc::DHP, Payload> bq_dhp;
         struct tr_cnt_sc: public cc::basket_queue::traits { typedef cds::atomicity::item_counter item_counter; typedef cds::opt::v::sequential_consistent memory_model; };
-        typedef cc::BasketQueue<cds::gc::HP, long, tr_cnt_sc> bq_hp_cnt_sc;
+        typedef cc::BasketQueue<cds::gc::HP, Payload, tr_cnt_sc> bq_hp_cnt_sc;
         add_family<bq_hp, HpHolder<bq_hp::c_nHazardPtrCount + 1>>( "BasketQueue", 1 );
-        add_family<bq_dhp, DhpHolder>( "BasketQueue", 3 );
+        add_family<bq_dhp, DhpHolder>( "BasketQueue", 3, 2, 3, 2, 2, 1 );
         add_family<bq_hp_cnt_sc, HpHolder<bq_hp::c_nHazardPtrCount + 1>>( "BasketQueue-counter-seqcst", 3 );
     }
 #elif FAMILY == 3
     {
-        typedef cc::OptimisticQueue<cds::gc::HP, long> oq_hp;
-        typedef cc::OptimisticQueue<cds::gc::DHP, long> oq_dhp;
+        typedef cc::OptimisticQueue<cds::gc::HP, Payload> oq_hp;
+        typedef cc::OptimisticQueue<cds::gc::DHP, Payload> oq_dhp;
         struct tr_cnt_sc: public cc::optimistic_queue::traits { typedef cds::atomicity::item_counter item_counter; typedef cds::opt::v::sequential_consistent memory_model; };
-        typedef cc::OptimisticQueue<cds::gc::HP, long, tr_cnt_sc> oq_hp_cnt_sc;
+        typedef cc::OptimisticQueue<cds::gc::HP, Payload, tr_cnt_sc> oq_hp_cnt_sc;
         add_family<oq_hp, HpHolder<oq_hp::c_nHazardPtrCount + 1>>( "OptimisticQueue", 1 );
-        add_family<oq_dhp, DhpHolder>( "OptimisticQueue", 3 );
+        add_family<oq_dhp, DhpHolder>( "OptimisticQueue", 3, 2, 3, 2, 2, 1 );
         add_family<oq_hp_cnt_sc, HpHolder<oq_hp::c_nHazardPtrCount + 1>>( "OptimisticQueue-counter-seqcst", 3 );
     }
 #elif FAMILY == 4
     {
-        typedef cc::RWQueue<long, rw_tr> rwq_mutex;
-        typedef cc::RWQueue<long> rwq_spin;
-        typedef cc::FCQueue<long> fcq;
-        typedef cc::FCQueue<long, std::queue<long>, fc_el> fcq_elim;
-        typedef cc::FCQueue<long, std::queue<long, std::list<long>>, fc_tr> fcq_list_mutex;
+        typedef cc::RWQueue<Payload, rw_tr> rwq_mutex;
+        typedef cc::RWQueue<Payload> rwq_spin;
+        typedef cc::FCQueue<Payload> fcq;
+        typedef cc::FCQueue<Payload, std::queue<Payload>, fc_el> fcq_elim;
+        typedef cc::FCQueue<Payload, std::queue<Payload, std::list<Payload>>, fc_tr> fcq_list_mutex;
         add_family<rwq_mutex, NoSmr>( "RWQueue-mutex", 1, 6, 12, 4, 6 );
         add_family<rwq_spin, NoSmr>( "RWQueue-spin", 1, 4, 8, 3, 4 );
-        add_family<fcq, NoSmr>( "FCQueue", 3, 2, 2, 1, 2 );
-        add_family<fcq_elim, NoSmr, true>( "FCQueue-elimination", 3, 1, 2, 1, 1 );
-        add_family<fcq_list_mutex, NoSmr>( "FCQueue-list-mutex", 6, 1, 2, 1, 1 );
+        add_family<fcq, NoSmr>( "FCQueue", 1, 1, 2, 1, 2 );
+        add_family<fcq_elim, NoSmr, true>( "FCQueue-elimination", 1, 1, 2, 1, 2 );
+        add_family<fcq_list_mutex, NoSmr>( "FCQueue-list-mutex", 2, 1, 2, 1, 1 );
+        add_family<fcq, NoSmr>( "FCQueue", 2, 1, 2, 1, 1, 1 );
+        add_family<fcq_elim, NoSmr, true>( "FCQueue-elimination", 1, 1, 2, 1, 2, 1 );
     }
 #endif
 
